@@ -36,7 +36,7 @@ def bounds(tier):
 def enumerate_cases(tier, seed):
     from checks import c01
 
-    return c01.enumerate_cases(tier, seed)
+    return [c for c in c01.enumerate_cases(tier, seed) if not c.get("inverter")]  # the configured-inverter leg is C01's own
 
 
 def _judge(ld, J, n, eps):
